@@ -1663,6 +1663,8 @@ class PPTableFormat:
             f"invalid limits specified: {limits}. Expected value is None "
             f"or (n_firts, n_last)")
         self.limit_flines, self.limit_llines = limits
+        # it is not known any more if some lines will be skipped
+        self.any_lines_skipped = None
 
     @staticmethod
     def _parse_fmt(fmt):
